@@ -665,3 +665,1025 @@ Proof.
   split; [apply rget_rset_same; assumption|]. split; [intros k Hk; apply rget_rset_other; assumption|].
   destruct (rset_frame s r (U32 target)) as (F1 & F2 & _). split; assumption.
 Qed.
+
+(** * 5. The data segment *)
+
+(* vocabulary: the intended layout, computed without any memory *)
+Definition esize (ty : Z) : Z := if ty =? 0 then 1 else if ty =? 1 then 2 else 4.   (* byte half word *)
+(* the n low bytes of v, least significant first *)
+Fixpoint le_bytes (n : nat) (v : Z) : list Z :=
+  match n with O => [] | S k => v mod 256 :: le_bytes k (v / 256) end.
+(* all literals of a declaration are accepted by int(.., 0) *)
+Fixpoint lit_values (vals : list str) : option (list Z) :=
+  match vals with
+  | [] => Some []
+  | v :: t => match py_int0 v, lit_values t with
+              | Some z, Some zs => Some (z :: zs)
+              | _, _ => None
+              end
+  end.
+
+Record vlay := { vl_name : Z; vl_start : Z; vl_esize : Z; vl_bytes : list Z; vl_extent : Z }.
+
+(* one declaration: name, recorded element size, byte overlay, extent in bytes *)
+Definition decl_image (l : rline) : option (Z * Z * list Z * Z) :=
+  match l with
+  | RVarDecl name ty vals =>
+      match lit_values vals with
+      | Some zs => Some (name, esize ty,
+                         flat_map (fun z => le_bytes (Z.to_nat (esize ty)) (z mod 2 ^ (8 * esize ty))) zs,
+                         esize ty * Z.of_nat (length zs))
+      | None => None
+      end
+  | RStrDecl name s =>
+      Some (name, 1, map (fun c => c mod 256) (strip_quotes s) ++ [0], Z.of_nat (length (strip_quotes s)) + 1)
+  | RZeroDecl name v => match py_int10 v with Some n => Some (name, 4, [], 4 * n) | None => None end
+  | _ => None
+  end.
+
+(* declarations in order, each at the next multiple of 4 *)
+Fixpoint lay (data : list (Z * rline)) (a : Z) : option (list vlay * Z) :=
+  match data with
+  | [] => Some ([], a)
+  | (_, l) :: t =>
+      match decl_image l with
+      | None => None
+      | Some (name, sz, bytes, ext) =>
+          match lay t (align4 a + ext) with
+          | Some (L, e) => Some ({| vl_name := name; vl_start := align4 a; vl_esize := sz;
+                                    vl_bytes := bytes; vl_extent := ext |} :: L, e)
+          | None => None
+          end
+      end
+  end.
+
+Definition table (L : list vlay) : vartab := map (fun v => (vl_name v, (vl_start v, vl_esize v))) L.
+
+(* the memory contents the layout prescribes on top of a previous contents f *)
+Definition in_var (v : vlay) (x : Z) : Prop := vl_start v <= x < vl_start v + Z.of_nat (length (vl_bytes v)).
+Fixpoint overlay (L : list vlay) (f : Z -> Z) (x : Z) : Z :=
+  match L with
+  | [] => f x
+  | v :: t => if (vl_start v <=? x) && (x <? vl_start v + Z.of_nat (length (vl_bytes v)))
+              then nth (Z.to_nat (x - vl_start v)) (vl_bytes v) 0
+              else overlay t f x
+  end.
+
+(* first variable at align4 a, every next one at align4 of the end of its predecessor *)
+Fixpoint chain (a : Z) (L : list vlay) (e : Z) : Prop :=
+  match L with
+  | [] => e = a
+  | v :: t => vl_start v = align4 a /\ chain (vl_start v + vl_extent v) t e
+  end.
+
+(* what the tokenizer guarantees: the count of .zero is a digit string *)
+Definition zero_ok (data : list (Z * rline)) : Prop :=
+  forall ln name v, In (ln, RZeroDecl name v) data -> Forall is_dec_char v.
+
+(* writing a byte list at consecutive addresses *)
+Fixpoint put_bytes (m : zmap) (a : Z) (bs : list Z) : zmap :=
+  match bs with [] => m | b :: t => put_bytes (mset m a b) (a + 1) t end.
+
+(** ** arithmetic of the layout *)
+Lemma align4_spec a : a <= align4 a < a + 4 /\ align4 a mod 4 = 0.
+Proof. unfold align4. destruct (a mod 4 =? 0) eqn:E; lia. Qed.
+
+Lemma esize_cases ty : esize ty = 1 \/ esize ty = 2 \/ esize ty = 4.
+Proof. unfold esize. destruct (ty =? 0); [tauto|]. destruct (ty =? 1); tauto. Qed.
+
+Lemma le_bytes_length n v : length (le_bytes n v) = n.
+Proof. revert v. induction n as [|n IH]; intros v; cbn [le_bytes length]; [reflexivity | rewrite IH; reflexivity]. Qed.
+
+Lemma flat_map_length_const {A} (f : A -> list Z) k l : (forall x, length (f x) = k) ->
+  length (flat_map f l) = (k * length l)%nat.
+Proof.
+  intros H. induction l as [|x t IH]; cbn [flat_map length]; [lia|].
+  rewrite app_length, H, IH. lia.
+Qed.
+
+Lemma nth_le_bytes n : forall v b, (b < n)%nat -> nth b (le_bytes n v) 0 = (v / 256 ^ Z.of_nat b) mod 256.
+Proof.
+  induction n as [|n IH]; intros v b Hb; [lia|]. cbn [le_bytes]. destruct b as [|b]; cbn [nth].
+  - change (Z.of_nat 0) with 0. rewrite Z.pow_0_r, Z.div_1_r. reflexivity.
+  - rewrite IH by lia. rewrite Nat2Z.inj_succ, Z.pow_succ_r by lia.
+    rewrite Z.div_div by (try lia; apply Z.pow_pos_nonneg; lia). reflexivity.
+Qed.
+
+Lemma nth_flat_map_const {A} (f : A -> list Z) k (d0 : A) : (forall x, length (f x) = k) ->
+  forall l j b, (j < length l)%nat -> (b < k)%nat ->
+  nth (j * k + b) (flat_map f l) 0 = nth b (f (nth j l d0)) 0.
+Proof.
+  intros H. induction l as [|x t IH]; intros j b Hj Hb; cbn [length] in Hj; [lia|].
+  cbn [flat_map]. destruct j as [|j].
+  - cbn [Nat.mul Nat.add nth]. rewrite app_nth1 by (rewrite H; exact Hb). reflexivity.
+  - rewrite app_nth2 by (rewrite H; lia). rewrite H.
+    replace (S j * k + b - k)%nat with (j * k + b)%nat by lia. cbn [nth]. apply IH; lia.
+Qed.
+
+Lemma dec_value_nonneg d : Forall is_dec_char d -> 0 <= digits_value 10 d.
+Proof.
+  intros HF. rewrite digits_value_positional.
+  rewrite (map_ext_Forall is_dec_char hexval dec_digit d hexval_dec HF).
+  induction HF as [|c t Hc Ht IH]; cbn [map positional]; [lia|].
+  unfold is_dec_char, dec_digit in *.
+  assert (0 <= 10 ^ Z.of_nat (length (map dec_digit t))) by (apply Z.pow_nonneg; lia). nia.
+Qed.
+
+Lemma py_int10_nonneg d n : Forall is_dec_char d -> py_int10 d = Some n -> 0 <= n.
+Proof.
+  intros HF H. unfold py_int10 in H. destruct (_ >? _); [discriminate|]. injection H as <-.
+  apply dec_value_nonneg; assumption.
+Qed.
+
+(** ** the assoc-list memory under byte writes *)
+Lemma mget_put_bytes bs : forall m a x,
+  mget (put_bytes m a bs) x =
+  if (a <=? x) && (x <? a + Z.of_nat (length bs)) then nth (Z.to_nat (x - a)) bs 0 else mget m x.
+Proof.
+  induction bs as [|b t IH]; intros m a x; cbn [put_bytes length].
+  - replace ((a <=? x) && (x <? a + Z.of_nat 0)) with false by lia. reflexivity.
+  - rewrite IH. rewrite Nat2Z.inj_succ. rewrite mget_mset.
+    destruct (Z.eq_dec x a) as [->|Hne].
+    + replace ((a + 1 <=? a) && (a <? a + 1 + Z.of_nat (length t))) with false by lia.
+      rewrite Z.eqb_refl. replace ((a <=? a) && (a <? a + Z.succ (Z.of_nat (length t)))) with true by lia.
+      replace (a - a) with 0 by lia. reflexivity.
+    + replace (a =? x) with false by lia.
+      destruct ((a + 1 <=? x) && (x <? a + 1 + Z.of_nat (length t))) eqn:E.
+      * replace ((a <=? x) && (x <? a + Z.succ (Z.of_nat (length t)))) with true by lia.
+        replace (Z.to_nat (x - a)) with (S (Z.to_nat (x - (a + 1)))) by lia. reflexivity.
+      * replace ((a <=? x) && (x <? a + Z.succ (Z.of_nat (length t)))) with false by lia. reflexivity.
+Qed.
+
+Lemma put_bytes_app b1 : forall m a b2,
+  put_bytes m a (b1 ++ b2) = put_bytes (put_bytes m a b1) (a + Z.of_nat (length b1)) b2.
+Proof.
+  induction b1 as [|b t IH]; intros m a b2; cbn [app put_bytes length].
+  - change (Z.of_nat 0) with 0. rewrite Z.add_0_r. reflexivity.
+  - rewrite IH. f_equal. lia.
+Qed.
+
+(** ** one direct write on a flat memory, inside the data address range *)
+Lemma write_mult_put a : forall k m i v, 16384 <= a + i -> a + i + Z.of_nat k <= 4294967296 ->
+  write_mult rv_memcfg m a k i v = (put_bytes m (a + i) (le_bytes k v), None).
+Proof.
+  induction k as [|k IH]; intros m i v H1 H2; cbn [write_mult le_bytes put_bytes]; [reflexivity|].
+  unfold write_cell, eff_addr, in_range. cbn [aovf alen alo ahi cw rv_memcfg].
+  change (2 ^ 32) with 4294967296. replace ((a + i) mod 4294967296) with (a + i) by lia.
+  replace ((16384 <=? a + i) && (a + i <? 4294967296)) with true by lia.
+  change (2 ^ 8 - 1) with 255. rewrite land_255. rewrite shr_div by lia. change (2 ^ 8) with 256.
+  rewrite IH by lia. replace (a + (i + 1)) with (a + i + 1) by lia. reflexivity.
+Qed.
+
+Lemma ncells_rv k : ncells rv_memcfg (8 * Z.of_nat k) = k.
+Proof. unfold ncells. cbn [cw rv_memcfg]. replace (8 * Z.of_nat k / 8) with (Z.of_nat k) by lia. apply Nat2Z.id. Qed.
+
+Lemma dwrite_flat_ok m k a v : 16384 <= a -> a + Z.of_nat k <= 4294967296 ->
+  dwrite (MFlat m) (8 * Z.of_nat k) a v = POk (MFlat (put_bytes m a (le_bytes k v))).
+Proof.
+  intros H1 H2. unfold dwrite, ms_write, mem_write. rewrite ncells_rv.
+  rewrite write_mult_put by lia. rewrite Z.add_0_r. reflexivity.
+Qed.
+
+Lemma write_vals_flat k ln : forall vals m a zs, lit_values vals = Some zs ->
+  16384 <= a -> a + Z.of_nat k * Z.of_nat (length zs) <= 4294967296 ->
+  write_vals (MFlat m) (8 * Z.of_nat k) (Z.of_nat k) a vals ln =
+  POk (MFlat (put_bytes m a (flat_map (fun z => le_bytes k (z mod 2 ^ (8 * Z.of_nat k))) zs)),
+       a + Z.of_nat k * Z.of_nat (length zs)).
+Proof.
+  induction vals as [|v t IH]; intros m a zs Hz H1 H2; cbn [lit_values] in Hz.
+  - injection Hz as <-. cbn [write_vals flat_map put_bytes length]. do 2 f_equal. lia.
+  - destruct (py_int0 v) as [z|] eqn:Ev; [|discriminate].
+    destruct (lit_values t) as [zs'|] eqn:Et; [|discriminate]. injection Hz as <-.
+    cbn [length] in H2. rewrite Nat2Z.inj_succ in H2.
+    cbn [write_vals]. rewrite Ev. rewrite dwrite_flat_ok by nia.
+    rewrite (IH _ _ zs') by (try reflexivity; nia).
+    cbn [flat_map length]. rewrite put_bytes_app, le_bytes_length. unfold U.
+    rewrite Nat2Z.inj_succ. do 2 f_equal. lia.
+Qed.
+
+Lemma write_chars_flat : forall cs m a, 16384 <= a -> a + Z.of_nat (length cs) <= 4294967296 ->
+  write_chars (MFlat m) a cs =
+  POk (MFlat (put_bytes m a (map (fun c => c mod 256) cs)), a + Z.of_nat (length cs)).
+Proof.
+  induction cs as [|c t IH]; intros m a H1 H2; cbn [write_chars map put_bytes length].
+  - do 2 f_equal. lia.
+  - cbn [length] in H2. rewrite Nat2Z.inj_succ in H2.
+    change (dwrite (MFlat m) 8 a (U8 c)) with (dwrite (MFlat m) (8 * Z.of_nat 1) a (U8 c)).
+    rewrite (dwrite_flat_ok m 1 a (U8 c)) by lia. rewrite IH by lia.
+    cbn [le_bytes put_bytes]. rewrite U8_eq, Z.mod_mod by lia. rewrite Nat2Z.inj_succ. do 2 f_equal. lia.
+Qed.
+
+(** ** success on any memory system determines the table (no range hypotheses) *)
+Lemma write_vals_ok ln : forall vals ms nbits stride a ms' a',
+  write_vals ms nbits stride a vals ln = POk (ms', a') ->
+  exists zs, lit_values vals = Some zs /\ a' = a + stride * Z.of_nat (length zs).
+Proof.
+  induction vals as [|v t IH]; intros ms nbits stride a ms' a' H; cbn [write_vals] in H.
+  - injection H as <- <-. exists []. split; [reflexivity | cbn [length]; lia].
+  - destruct (py_int0 v) as [z|] eqn:Ev; [|discriminate].
+    destruct (dwrite ms nbits a (U nbits z)) as [m1|]; [|discriminate].
+    destruct (IH _ _ _ _ _ _ H) as (zs & Hz & Ha). exists (z :: zs). cbn [lit_values]. rewrite Ev, Hz.
+    split; [reflexivity|]. cbn [length]. rewrite Nat2Z.inj_succ. lia.
+Qed.
+
+Lemma write_chars_ok : forall cs ms a ms' a', write_chars ms a cs = POk (ms', a') -> a' = a + Z.of_nat (length cs).
+Proof.
+  induction cs as [|c t IH]; intros ms a ms' a' H; cbn [write_chars] in H.
+  - injection H as <- <-. cbn [length]. lia.
+  - destruct (dwrite ms 8 a (U8 c)) as [m1|]; [|discriminate].
+    rewrite (IH _ _ _ _ H). cbn [length]. rewrite Nat2Z.inj_succ. lia.
+Qed.
+
+Lemma table_cons v L vars : (vars ++ [(vl_name v, (vl_start v, vl_esize v))]) ++ table L = vars ++ table (v :: L).
+Proof. rewrite <- app_assoc. reflexivity. Qed.
+
+Lemma var_lookup_app vars n x k :
+  var_lookup (vars ++ [(n, x)]) k =
+  match var_lookup vars k with Some y => Some y | None => if n =? k then Some x else None end.
+Proof.
+  induction vars as [|[k' v'] t IH]; cbn [app var_lookup]; [reflexivity|].
+  destruct (k' =? k); [reflexivity | exact IH].
+Qed.
+
+(* the conclusions about the variable table *)
+Definition table_ok (vars vars' : vartab) (L : list vlay) : Prop :=
+  vars' = vars ++ table L /\
+  (forall k y, var_lookup vars k = Some y -> var_lookup vars' k = Some y) /\
+  (forall v, In v L -> var_lookup vars' (vl_name v) = Some (vl_start v, vl_esize v)).
+
+Lemma table_ok_step vars vars' v L :
+  var_lookup vars (vl_name v) = None ->
+  table_ok (vars ++ [(vl_name v, (vl_start v, vl_esize v))]) vars' L -> table_ok vars vars' (v :: L).
+Proof.
+  intros Hn (H1 & H2 & H3). split; [|split].
+  - rewrite H1. apply table_cons.
+  - intros k y Hk. apply H2. rewrite var_lookup_app, Hk. reflexivity.
+  - intros w [<- | Hw]; [|apply H3; exact Hw].
+    apply H2. rewrite var_lookup_app, Hn, Z.eqb_refl. reflexivity.
+Qed.
+
+Lemma write_data_lay : forall data ms a vars ms' vars',
+  write_data data ms a vars = POk (ms', vars') ->
+  exists L e, lay data a = Some (L, e) /\ table_ok vars vars' L.
+Proof.
+  induction data as [|[ln l] t IH]; intros ms a vars ms' vars' H; cbn [write_data] in H.
+  - injection H as <- <-. exists [], a. split; [reflexivity|]. split; [|split].
+    + rewrite app_nil_r; reflexivity.
+    + intros k y Hk; exact Hk.
+    + intros v [].
+  - destruct l as [d|name ty vals|name s|name v|name|inl b]; try discriminate H.
+    + (* byte / half / word *)
+      destruct (var_lookup vars name) eqn:Edup; [discriminate H|].
+      assert (G : forall nbits stride, esize ty = stride ->
+        match write_vals ms nbits stride (align4 a) vals ln with
+        | PErr e => PErr e
+        | POk (m', a') => write_data t m' a' (vars ++ [(name, (align4 a, stride))])
+        end = POk (ms', vars') ->
+        exists L e, lay ((ln, RVarDecl name ty vals) :: t) a = Some (L, e) /\ table_ok vars vars' L).
+      2: { unfold esize in G. destruct (ty =? 0); [|destruct (ty =? 1)]; eapply G; try exact H; reflexivity. }
+      intros nbits stride Hs Hw.
+      destruct (write_vals ms nbits stride (align4 a) vals ln) as [[m1 a1]|] eqn:Ew; [|discriminate].
+      destruct (write_vals_ok _ _ _ _ _ _ _ _ Ew) as (zs & Hz & Ha1). cbn [lay decl_image]. rewrite Hz.
+      destruct (IH _ _ _ _ _ Hw) as (L & e & HL & Hv). subst a1. rewrite Hs, HL.
+      eexists _, e. split; [reflexivity|]. apply table_ok_step; [exact Edup | exact Hv].
+    + (* string *)
+      destruct (var_lookup vars name) eqn:Edup; [discriminate H|].
+      destruct (write_chars ms (align4 a) (strip_quotes s)) as [[m1 a1]|] eqn:Ew; [|discriminate].
+      destruct (dwrite m1 8 a1 0) as [m2|]; [|discriminate].
+      apply write_chars_ok in Ew. subst a1.
+      destruct (IH _ _ _ _ _ H) as (L & e & HL & Hv). cbn [lay decl_image].
+      replace (align4 a + (Z.of_nat (length (strip_quotes s)) + 1))
+        with (align4 a + Z.of_nat (length (strip_quotes s)) + 1) by lia.
+      rewrite HL. eexists _, e. split; [reflexivity|]. apply table_ok_step; [exact Edup | exact Hv].
+    + (* .zero *)
+      destruct (var_lookup vars name) eqn:Edup; [discriminate H|].
+      cbn [lay decl_image]. destruct (py_int10 v) as [n|]; [|discriminate].
+      destruct (IH _ _ _ _ _ H) as (L & e & HL & Hv). rewrite HL.
+      eexists _, e. split; [reflexivity|]. apply table_ok_step; [exact Edup | exact Hv].
+Qed.
+
+(** ** structure of the layout *)
+Lemma decl_image_extent l name sz bytes ext : decl_image l = Some (name, sz, bytes, ext) ->
+  (forall nm v, l = RZeroDecl nm v -> Forall is_dec_char v) ->
+  Z.of_nat (length bytes) <= ext /\ (sz = 1 \/ sz = 2 \/ sz = 4).
+Proof.
+  intros H Hz. destruct l as [d|nm ty vals|nm s|nm v|nm|inl b]; cbn [decl_image] in H; try discriminate H.
+  - destruct (lit_values vals) as [zs|]; [|discriminate]. injection H as _ <- <- <-.
+    split; [|apply esize_cases].
+    rewrite (flat_map_length_const _ (Z.to_nat (esize ty))) by (intros; apply le_bytes_length).
+    destruct (esize_cases ty) as [E | [E | E]]; rewrite E; lia.
+  - injection H as _ <- <- <-. split; [|tauto]. rewrite app_length, map_length. cbn [length]. lia.
+  - destruct (py_int10 v) as [n|] eqn:En; [|discriminate]. injection H as _ <- <- <-.
+    split; [|tauto]. cbn [length]. pose proof (py_int10_nonneg v n (Hz _ _ eq_refl) En). lia.
+Qed.
+
+Lemma zero_ok_tail p t : zero_ok (p :: t) -> zero_ok t.
+Proof. intros H ln name v Hin. apply (H ln name v). right. exact Hin. Qed.
+
+Definition placed (a e : Z) (v : vlay) : Prop :=
+  a <= vl_start v /\ vl_start v mod 4 = 0 /\
+  Z.of_nat (length (vl_bytes v)) <= vl_extent v /\ vl_start v + vl_extent v <= e /\
+  (vl_esize v = 1 \/ vl_esize v = 2 \/ vl_esize v = 4).
+
+Lemma lay_props : forall data a L e, lay data a = Some (L, e) -> zero_ok data ->
+  chain a L e /\ a <= e /\ Forall (placed a e) L /\
+  Forall2 (fun d v => decl_image (snd d) = Some (vl_name v, vl_esize v, vl_bytes v, vl_extent v)) data L.
+Proof.
+  induction data as [|[ln l] t IH]; intros a L e H Hz; cbn [lay] in H.
+  - injection H as <- <-. cbn [chain]. repeat split; try lia; constructor.
+  - destruct (decl_image l) as [[[[name sz] bytes] ext]|] eqn:Ed; [|discriminate].
+    destruct (lay t (align4 a + ext)) as [[Lt et]|] eqn:El; [|discriminate]. injection H as <- <-.
+    destruct (IH _ _ _ El (zero_ok_tail _ _ Hz)) as (C & Hle & HF & H2).
+    destruct (decl_image_extent _ _ _ _ _ Ed) as [Hext Hsz].
+    { intros nm v ->. apply (Hz ln nm v). left. reflexivity. }
+    pose proof (align4_spec a) as Hal.
+    cbn [chain vl_start vl_extent]. split; [split; [reflexivity | exact C]|].
+    split; [lia|]. split.
+    + constructor.
+      * unfold placed. cbn [vl_start vl_bytes vl_extent vl_esize]. repeat split; try lia; try exact Hsz.
+      * eapply Forall_impl; [|exact HF]. intros v (P1 & P2 & P3 & P4 & P5). unfold placed. repeat split; try lia; try exact P5.
+    + constructor; [exact Ed | exact H2].
+Qed.
+
+Lemma image_out L f x : (forall v, In v L -> ~ in_var v x) -> overlay L f x = f x.
+Proof.
+  induction L as [|v t IH]; intros H; cbn [overlay]; [reflexivity|].
+  destruct ((vl_start v <=? x) && (x <? vl_start v + Z.of_nat (length (vl_bytes v)))) eqn:E.
+  - exfalso. apply (H v); [left; reflexivity|]. unfold in_var. lia.
+  - apply IH. intros w Hw. apply H. right. exact Hw.
+Qed.
+
+Lemma image_ext L f g x : f x = g x -> overlay L f x = overlay L g x.
+Proof.
+  intros H. induction L as [|v t IH]; cbn [overlay]; [exact H|]. rewrite IH. reflexivity.
+Qed.
+
+Lemma image_after_put Lt m a0 bytes x :
+  (forall v, In v Lt -> a0 + Z.of_nat (length bytes) <= vl_start v) ->
+  overlay Lt (mget (put_bytes m a0 bytes)) x =
+  if (a0 <=? x) && (x <? a0 + Z.of_nat (length bytes)) then nth (Z.to_nat (x - a0)) bytes 0
+  else overlay Lt (mget m) x.
+Proof.
+  intros H. destruct ((a0 <=? x) && (x <? a0 + Z.of_nat (length bytes))) eqn:E.
+  - rewrite image_out.
+    + rewrite mget_put_bytes, E. reflexivity.
+    + intros v Hv. specialize (H v Hv). unfold in_var. lia.
+  - apply image_ext. rewrite mget_put_bytes, E. reflexivity.
+Qed.
+
+(* a cell inside a variable holds that variable's byte (the ranges are disjoint) *)
+Lemma image_in : forall data a L e f v x, lay data a = Some (L, e) -> zero_ok data ->
+  In v L -> in_var v x -> overlay L f x = nth (Z.to_nat (x - vl_start v)) (vl_bytes v) 0.
+Proof.
+  induction data as [|[ln l] t IH]; intros a L e f v x H Hz Hin Hx; cbn [lay] in H.
+  - injection H as <- <-. destruct Hin.
+  - destruct (decl_image l) as [[[[name sz] bytes] ext]|] eqn:Ed; [|discriminate].
+    destruct (lay t (align4 a + ext)) as [[Lt et]|] eqn:El; [|discriminate]. injection H as <- <-.
+    destruct (decl_image_extent _ _ _ _ _ Ed) as [Hext _].
+    { intros nm w ->. apply (Hz ln nm w). left. reflexivity. }
+    cbn [overlay vl_start vl_bytes]. destruct Hin as [<- | Hin].
+    + unfold in_var in Hx. cbn [vl_start vl_bytes] in Hx.
+      replace ((align4 a <=? x) && (x <? align4 a + Z.of_nat (length bytes))) with true by lia. reflexivity.
+    + destruct (lay_props _ _ _ _ El (zero_ok_tail _ _ Hz)) as (_ & _ & HF & _).
+      rewrite Forall_forall in HF. destruct (HF v Hin) as (P1 & _).
+      unfold in_var in Hx.
+      replace ((align4 a <=? x) && (x <? align4 a + Z.of_nat (length bytes))) with false by lia.
+      eapply IH; [exact El | exact (zero_ok_tail _ _ Hz) | exact Hin | exact Hx].
+Qed.
+
+(** ** contents of a flat memory after the data pass *)
+Lemma write_data_flat : forall data m a vars ms' vars' L e,
+  write_data data (MFlat m) a vars = POk (ms', vars') -> lay data a = Some (L, e) -> zero_ok data ->
+  16384 <= a -> e <= 4294967296 ->
+  exists m', ms' = MFlat m' /\ forall x, mget m' x = overlay L (mget m) x.
+Proof.
+  induction data as [|[ln l] t IH]; intros m a vars ms' vars' L e H HL Hz Ha He;
+    cbn [write_data] in H; cbn [lay] in HL.
+  - injection H as <- <-. injection HL as <- <-. exists m. split; [reflexivity | intros x; reflexivity].
+  - destruct (decl_image l) as [[[[name sz] bytes] ext]|] eqn:Ed; [|discriminate].
+    destruct (lay t (align4 a + ext)) as [[Lt et]|] eqn:El; [|discriminate]. injection HL as <- <-.
+    destruct (decl_image_extent _ _ _ _ _ Ed) as [Hext _].
+    { intros nm w ->. apply (Hz ln nm w). left. reflexivity. }
+    destruct (lay_props _ _ _ _ El (zero_ok_tail _ _ Hz)) as (_ & Hle & HF & _).
+    pose proof (align4_spec a) as Hal.
+    assert (Hafter : forall v, In v Lt -> align4 a + Z.of_nat (length bytes) <= vl_start v).
+    { intros v Hv. rewrite Forall_forall in HF. destruct (HF v Hv) as (P1 & _). lia. }
+    destruct l as [d|nm ty vals|nm s|nm w|nm|inl b]; cbn [decl_image] in Ed; try discriminate Ed.
+    + (* byte / half / word *)
+      destruct (var_lookup vars nm); [discriminate H|].
+      destruct (lit_values vals) as [zs|] eqn:Elit; [|discriminate Ed].
+      assert (G : forall k nbits stride, nbits = 8 * Z.of_nat k -> stride = Z.of_nat k -> esize ty = stride ->
+        match write_vals (MFlat m) nbits stride (align4 a) vals ln with
+        | PErr e => PErr e
+        | POk (m', a') => write_data t m' a' (vars ++ [(nm, (align4 a, stride))])
+        end = POk (ms', vars') ->
+        exists m', ms' = MFlat m' /\
+          forall x, mget m' x = overlay ({| vl_name := name; vl_start := align4 a; vl_esize := sz;
+                                         vl_bytes := bytes; vl_extent := ext |} :: Lt) (mget m) x).
+      2: { unfold esize in G. destruct (ty =? 0); [|destruct (ty =? 1)].
+           - apply (G 1%nat 8 1); try reflexivity. exact H.
+           - apply (G 2%nat 16 2); try reflexivity. exact H.
+           - apply (G 4%nat 32 4); try reflexivity. exact H. }
+      intros k nbits stride -> -> Hs Hw. rewrite Hs in Ed. rewrite Nat2Z.id in Ed.
+      injection Ed as <- <- <- <-.
+      rewrite (write_vals_flat k ln vals m (align4 a) zs Elit) in Hw by lia.
+      destruct (IH _ _ _ _ _ _ _ Hw El (zero_ok_tail _ _ Hz)) as (m' & -> & Hm'); [lia | lia |].
+      exists m'. split; [reflexivity|]. intros x. rewrite Hm'. cbn [overlay vl_start vl_bytes].
+      apply image_after_put. exact Hafter.
+    + (* string *)
+      destruct (var_lookup vars nm); [discriminate H|]. injection Ed as <- <- <- <-.
+      rewrite app_length, map_length in Hext, Hafter. cbn [length] in Hext, Hafter.
+      rewrite write_chars_flat in H by lia.
+      change (dwrite (MFlat ?mm) 8 ?aa 0) with (dwrite (MFlat mm) (8 * Z.of_nat 1) aa 0) in H.
+      rewrite dwrite_flat_ok in H by lia.
+      replace (align4 a + (Z.of_nat (length (strip_quotes s)) + 1))
+        with (align4 a + Z.of_nat (length (strip_quotes s)) + 1) in El by lia.
+      destruct (IH _ _ _ _ _ _ _ H El (zero_ok_tail _ _ Hz)) as (m' & -> & Hm'); [lia | lia |].
+      exists m'. split; [reflexivity|]. intros x. rewrite Hm'. cbn [overlay vl_start vl_bytes].
+      change (le_bytes 1 0) with [0].
+      rewrite <- (map_length (fun c => c mod 256) (strip_quotes s)) at 1.
+      rewrite <- put_bytes_app.
+      apply image_after_put. rewrite app_length, map_length. cbn [length]. exact Hafter.
+    + (* .zero *)
+      destruct (var_lookup vars nm); [discriminate H|].
+      destruct (py_int10 w) as [n|]; [|discriminate]. injection Ed as <- <- <- <-.
+      destruct (IH _ _ _ _ _ _ _ H El (zero_ok_tail _ _ Hz)) as (m' & -> & Hm'); [lia | lia |].
+      exists m'. split; [reflexivity|]. intros x. rewrite Hm'. cbn [overlay vl_start vl_bytes length].
+      replace ((align4 a <=? x) && (x <? align4 a + Z.of_nat 0)) with false by lia. reflexivity.
+Qed.
+
+(** ** reading the byte overlay of a declaration *)
+Lemma lit_values_iff vals : forall zs, lit_values vals = Some zs <-> Forall2 (fun v z => py_int0 v = Some z) vals zs.
+Proof.
+  induction vals as [|v t IH]; intros zs; cbn [lit_values].
+  - split; [intros H; injection H as <-; constructor | intros H; inversion H; reflexivity].
+  - split.
+    + destruct (py_int0 v) as [z|] eqn:Ev; [|discriminate].
+      destruct (lit_values t) as [zs'|]; [|discriminate]. intros H; injection H as <-.
+      constructor; [exact Ev | apply IH; reflexivity].
+    + intros H. inversion H as [|? z ? zs' Hv Ht]; subst. rewrite Hv.
+      apply IH in Ht. rewrite Ht. reflexivity.
+Qed.
+
+Lemma decl_bytes_lem :
+  (* .byte / .half / .word: element j, byte b (little endian) of the value reduced modulo the width *)
+  (forall name ty vals nm sz bytes ext,
+     decl_image (RVarDecl name ty vals) = Some (nm, sz, bytes, ext) ->
+     exists zs, Forall2 (fun v z => py_int0 v = Some z) vals zs /\
+       nm = name /\ sz = esize ty /\ ext = sz * Z.of_nat (length zs) /\ Z.of_nat (length bytes) = ext /\
+       forall j b, (j < length zs)%nat -> (b < Z.to_nat sz)%nat ->
+         nth (j * Z.to_nat sz + b) bytes 0 = (nth j zs 0 mod 2 ^ (8 * sz)) / 256 ^ Z.of_nat b mod 256) /\
+  (* .string: the character codes between the quotes modulo 256, then a zero byte *)
+  (forall name s nm sz bytes ext,
+     decl_image (RStrDecl name s) = Some (nm, sz, bytes, ext) ->
+     let cs := strip_quotes s in
+     nm = name /\ sz = 1 /\ ext = Z.of_nat (length cs) + 1 /\ Z.of_nat (length bytes) = ext /\
+     (forall j, (j < length cs)%nat -> nth j bytes 0 = nth j cs 0 mod 256) /\
+     nth (length cs) bytes 0 = 0) /\
+  (* .zero n: nothing written, 4n bytes reserved, element size 4 *)
+  (forall name v nm sz bytes ext,
+     decl_image (RZeroDecl name v) = Some (nm, sz, bytes, ext) ->
+     exists n, py_int10 v = Some n /\ nm = name /\ sz = 4 /\ bytes = [] /\ ext = 4 * n).
+Proof.
+  split; [|split].
+  - intros name ty vals nm sz bytes ext H. cbn [decl_image] in H.
+    destruct (lit_values vals) as [zs|] eqn:Ez; [|discriminate]. injection H as <- <- <- <-.
+    exists zs. split; [apply lit_values_iff; exact Ez|]. split; [reflexivity|]. split; [reflexivity|].
+    split; [reflexivity|]. split.
+    + rewrite (flat_map_length_const _ (Z.to_nat (esize ty))) by (intros; apply le_bytes_length).
+      destruct (esize_cases ty) as [E | [E | E]]; rewrite E; lia.
+    + intros j b Hj Hb.
+      rewrite (nth_flat_map_const _ (Z.to_nat (esize ty)) 0) by (try assumption; intros; apply le_bytes_length).
+      apply nth_le_bytes. exact Hb.
+  - intros name s nm sz bytes ext H cs. cbn [decl_image] in H. injection H as <- <- <- <-.
+    fold cs. split; [reflexivity|]. split; [reflexivity|]. split; [reflexivity|]. split.
+    + rewrite app_length, map_length. cbn [length]. lia.
+    + split.
+      * intros j Hj. rewrite app_nth1 by (rewrite map_length; exact Hj).
+        change 0 with ((fun c => c mod 256) 0) at 1. rewrite map_nth. reflexivity.
+      * rewrite app_nth2 by (rewrite map_length; lia). rewrite map_length, Nat.sub_diag. reflexivity.
+  - intros name v nm sz bytes ext H. cbn [decl_image] in H.
+    destruct (py_int10 v) as [n|]; [|discriminate]. injection H as <- <- <- <-.
+    exists n. repeat split; reflexivity.
+Qed.
+
+(** ** 5. the layout theorem *)
+Lemma layout_lem : forall data m a vars ms' vars',
+  write_data data (MFlat m) a vars = POk (ms', vars') -> zero_ok data -> 16384 <= a ->
+  exists L e,
+    lay data a = Some (L, e) /\
+    (* the variable table: one entry per declaration, in order, after the existing ones *)
+    vars' = vars ++ table L /\
+    (forall k y, var_lookup vars k = Some y -> var_lookup vars' k = Some y) /\
+    (forall v, In v L -> var_lookup vars' (vl_name v) = Some (vl_start v, vl_esize v)) /\
+    (* placement: first at align4 a, each next one at align4 of the end of its predecessor *)
+    chain a L e /\ Forall (placed a e) L /\
+    Forall2 (fun d v => decl_image (snd d) = Some (vl_name v, vl_esize v, vl_bytes v, vl_extent v)) data L /\
+    (* contents, as long as the data segment ends at or below 2^32 *)
+    (e <= 2 ^ 32 ->
+     exists m', ms' = MFlat m' /\
+       (forall x, mget m' x = overlay L (mget m) x) /\
+       (forall v x, In v L -> in_var v x -> mget m' x = nth (Z.to_nat (x - vl_start v)) (vl_bytes v) 0) /\
+       (forall x, (forall v, In v L -> ~ in_var v x) -> mget m' x = mget m x)).
+Proof.
+  intros data m a vars ms' vars' H Hz Ha.
+  destruct (write_data_lay _ _ _ _ _ _ H) as (L & e & HL & (T1 & T2 & T3)).
+  destruct (lay_props _ _ _ _ HL Hz) as (C & _ & HF & H2).
+  exists L, e. split; [exact HL|]. split; [exact T1|]. split; [exact T2|]. split; [exact T3|].
+  split; [exact C|]. split; [exact HF|]. split; [exact H2|].
+  intros He. change (2 ^ 32) with 4294967296 in He.
+  destruct (write_data_flat _ _ _ _ _ _ _ _ H HL Hz Ha He) as (m' & -> & Hm').
+  exists m'. split; [reflexivity|]. split; [exact Hm'|]. split.
+  - intros v x Hv Hx. rewrite Hm'. eapply image_in; eassumption.
+  - intros x Hx. rewrite Hm'. apply image_out. exact Hx.
+Qed.
+
+(** ** the cached case: direct writes go to the backing memory only *)
+Definition lift_lower {X} (d : dcache) (r : pres (memsys * X)) : pres (memsys * X) :=
+  match r with
+  | POk (ms', x) => POk (MCache (upd_lower d (ms_lower ms')), x)
+  | PErr e => PErr e
+  end.
+
+Definition dres (r : zmap * option err) (wrap : zmap -> memsys) : pres memsys :=
+  match r with
+  | (m', None) => POk (wrap m')
+  | (_, Some (EAddr x _ _ _)) => PErr (PMemAddr x)
+  | (_, Some _) => PErr (PUncaught 0)
+  end.
+
+Lemma dwrite_flat_eq m nbits a v : dwrite (MFlat m) nbits a v = dres (mem_write rv_memcfg m nbits a v) MFlat.
+Proof.
+  unfold dwrite, ms_write, dres. destruct (mem_write rv_memcfg m nbits a v) as [m' [e|]]; reflexivity.
+Qed.
+
+Lemma dwrite_cache_eq d nbits a v :
+  dwrite (MCache d) nbits a v = dres (mem_write rv_memcfg (lower d) nbits a v) (fun m' => MCache (upd_lower d m')).
+Proof.
+  unfold dwrite, ms_write, dc_write, dres.
+  destruct (mem_write rv_memcfg (lower d) nbits a v) as [m' [e|]]; reflexivity.
+Qed.
+
+Lemma lift_lower_upd {X} d m1 (r : pres (memsys * X)) : lift_lower (upd_lower d m1) r = lift_lower d r.
+Proof. destruct r as [[ms' x]|e]; reflexivity. Qed.
+
+Lemma write_vals_cache ln nbits stride : forall vals d a,
+  write_vals (MCache d) nbits stride a vals ln = lift_lower d (write_vals (MFlat (lower d)) nbits stride a vals ln).
+Proof.
+  induction vals as [|v t IH]; intros d a; cbn [write_vals].
+  - destruct d; reflexivity.
+  - destruct (py_int0 v) as [z|]; [|reflexivity].
+    rewrite dwrite_flat_eq, dwrite_cache_eq.
+    destruct (mem_write rv_memcfg (lower d) nbits a (U nbits z)) as [m1 [e|]]; cbn [dres].
+    + destruct e; reflexivity.
+    + rewrite IH. cbn [lower upd_lower]. apply lift_lower_upd.
+Qed.
+
+Lemma write_chars_cache : forall cs d a,
+  write_chars (MCache d) a cs = lift_lower d (write_chars (MFlat (lower d)) a cs).
+Proof.
+  induction cs as [|c t IH]; intros d a; cbn [write_chars].
+  - destruct d; reflexivity.
+  - rewrite dwrite_flat_eq, dwrite_cache_eq.
+    destruct (mem_write rv_memcfg (lower d) 8 a (U8 c)) as [m1 [e|]]; cbn [dres].
+    + destruct e; reflexivity.
+    + rewrite IH. cbn [lower upd_lower]. apply lift_lower_upd.
+Qed.
+
+(* results on a flat memory are flat *)
+Lemma write_vals_flat_shape ln nbits stride : forall vals m a ms' a',
+  write_vals (MFlat m) nbits stride a vals ln = POk (ms', a') -> ms' = MFlat (ms_lower ms').
+Proof.
+  induction vals as [|v t IH]; intros m a ms' a' H; cbn [write_vals] in H.
+  - injection H as <- <-. reflexivity.
+  - destruct (py_int0 v) as [z|]; [|discriminate]. rewrite dwrite_flat_eq in H.
+    destruct (mem_write rv_memcfg m nbits a (U nbits z)) as [m1 [e|]]; cbn [dres] in H.
+    + destruct e; discriminate.
+    + eapply IH; exact H.
+Qed.
+
+Lemma write_chars_flat_shape : forall cs m a ms' a',
+  write_chars (MFlat m) a cs = POk (ms', a') -> ms' = MFlat (ms_lower ms').
+Proof.
+  induction cs as [|c t IH]; intros m a ms' a' H; cbn [write_chars] in H.
+  - injection H as <- <-. reflexivity.
+  - rewrite dwrite_flat_eq in H.
+    destruct (mem_write rv_memcfg m 8 a (U8 c)) as [m1 [e|]]; cbn [dres] in H.
+    + destruct e; discriminate.
+    + eapply IH; exact H.
+Qed.
+
+Lemma write_data_cache_lem : forall data d a vars,
+  write_data data (MCache d) a vars = lift_lower d (write_data data (MFlat (lower d)) a vars).
+Proof.
+  induction data as [|[ln l] t IH]; intros d a vars; cbn [write_data].
+  - destruct d; reflexivity.
+  - destruct l as [dd|name ty vals|name s|name v|name|inl b]; try reflexivity.
+    + destruct (var_lookup vars name); [reflexivity|].
+      assert (G : forall nbits stride,
+        match write_vals (MCache d) nbits stride (align4 a) vals ln with
+        | PErr e => PErr e
+        | POk (m', a') => write_data t m' a' (vars ++ [(name, (align4 a, stride))])
+        end =
+        lift_lower d
+          match write_vals (MFlat (lower d)) nbits stride (align4 a) vals ln with
+          | PErr e => PErr e
+          | POk (m', a') => write_data t m' a' (vars ++ [(name, (align4 a, stride))])
+          end).
+      2: { destruct (ty =? 0); [|destruct (ty =? 1)]; apply G. }
+      intros nbits stride. rewrite write_vals_cache.
+      destruct (write_vals (MFlat (lower d)) nbits stride (align4 a) vals ln) as [[m1 a1]|e] eqn:Ew; [|reflexivity].
+      cbn [lift_lower]. rewrite IH. cbn [lower upd_lower]. rewrite lift_lower_upd.
+      rewrite (write_vals_flat_shape _ _ _ _ _ _ _ _ Ew) at 2. reflexivity.
+    + destruct (var_lookup vars name); [reflexivity|]. rewrite write_chars_cache.
+      destruct (write_chars (MFlat (lower d)) (align4 a) (strip_quotes s)) as [[m1 a1]|e] eqn:Ew; [|reflexivity].
+      cbn [lift_lower]. rewrite (write_chars_flat_shape _ _ _ _ _ Ew). cbn [ms_lower].
+      rewrite dwrite_flat_eq, dwrite_cache_eq. cbn [lower upd_lower].
+      destruct (mem_write rv_memcfg (ms_lower m1) 8 a1 0) as [m2 [e|]]; cbn [dres].
+      * destruct e; reflexivity.
+      * rewrite IH. cbn [lower upd_lower]. rewrite !lift_lower_upd. reflexivity.
+    + destruct (var_lookup vars name); [reflexivity|].
+      destruct (py_int10 v) as [n|]; [|reflexivity]. apply IH.
+Qed.
+
+(** * 7. Segment order *)
+
+(* vocabulary *)
+Definition plain_rline (x : Z * rline) : Prop := rdir_of (snd x) = None.
+(* the same lines under other line numbers *)
+Definition renumber {A} (f : Z -> Z) (l : list (Z * A)) : list (Z * A) := map (fun p => (f (fst p), snd p)) l.
+(* an error value without the line number it carries (addresses and sizes are kept) *)
+Definition erase_line (e : perr) : perr :=
+  match e with
+  | PSyntax _ => PSyntax 0 | PLabel _ => PLabel 0 | POdd _ => POdd 0 | PDupLabel _ => PDupLabel 0
+  | PDirective _ => PDirective 0 | PDataSyntax _ => PDataSyntax 0 | PDataDup _ => PDataDup 0
+  | PVariable _ => PVariable 0 | PUncaught _ => PUncaught 0
+  | PMemSize w => PMemSize w | PMemAddr a => PMemAddr a
+  end.
+Definition rel_res {A B} (R : A -> B -> Prop) (r1 : pres A) (r2 : pres B) : Prop :=
+  match r1, r2 with
+  | POk x, POk y => R x y
+  | PErr e1, PErr e2 => erase_line e1 = erase_line e2
+  | _, _ => False
+  end.
+(* both succeed with equal results, or both fail with the same error up to its line number *)
+Definition same_outcome {A} (r1 r2 : pres A) : Prop := rel_res eq r1 r2.
+
+Lemma rel_res_refl {A} (r : pres A) : rel_res eq r r.
+Proof. destruct r; cbn; reflexivity. Qed.
+
+Lemma rel_pbind {A A' B B'} (R : A -> A' -> Prop) (Q : B -> B' -> Prop) r1 r2 k1 k2 :
+  rel_res R r1 r2 -> (forall x y, R x y -> rel_res Q (k1 x) (k2 y)) ->
+  rel_res Q (pbind r1 k1) (pbind r2 k2).
+Proof.
+  intros H K. destruct r1 as [x|e1], r2 as [y|e2]; cbn in H |- *; try contradiction.
+  - apply K; exact H.
+  - exact H.
+Qed.
+
+(** ** the segmenter on the two orders *)
+Lemma segment_loop_plain_g {A} (dir_of : A -> option Z) P :
+  Forall (fun x => dir_of (snd x) = None) P -> forall rest de te data text,
+  segment_loop A dir_of (P ++ rest) de te data text = segment_loop A dir_of rest de te data text.
+Proof.
+  intros HP. induction HP as [|[ln x] t Hx Ht IH]; intros rest de te data text; [reflexivity|].
+  cbn [app segment_loop]. cbn [snd] in Hx. rewrite Hx. apply IH.
+Qed.
+
+Lemma segment_loop_all_plain_g {A} (dir_of : A -> option Z) P de te data text :
+  Forall (fun x => dir_of (snd x) = None) P -> segment_loop A dir_of P de te data text = POk (data, text).
+Proof.
+  intros HP. rewrite <- (app_nil_r P). rewrite segment_loop_plain_g by assumption. reflexivity.
+Qed.
+
+Lemma segment_rv_data_text a b D T :
+  Forall plain_rline D -> Forall plain_rline T -> ~ In b (map fst D) ->
+  segment rdir_of ((a, RDirective 1) :: D ++ (b, RDirective 0) :: T) = POk (D, T).
+Proof.
+  intros HD HT Hb. cbn [segment rdir_of].
+  rewrite (segment_loop_plain_g rdir_of D HD). cbn [segment_loop rdir_of].
+  change (0 =? 1) with false. cbv iota.
+  rewrite split_at_line_found by assumption. cbn [rev app].
+  apply segment_loop_all_plain_g; assumption.
+Qed.
+
+Lemma segment_rv_text_data c d D T :
+  Forall plain_rline D -> Forall plain_rline T -> ~ In d (map fst T) ->
+  segment rdir_of ((c, RDirective 0) :: T ++ (d, RDirective 1) :: D) = POk (D, T).
+Proof.
+  intros HD HT Hd. cbn [segment rdir_of].
+  rewrite (segment_loop_plain_g rdir_of T HT). cbn [segment_loop rdir_of].
+  change (1 =? 1) with true. cbv iota.
+  rewrite split_at_line_found by assumption. cbn [rev app].
+  apply segment_loop_all_plain_g; assumption.
+Qed.
+
+(** ** the data pass does not depend on line numbers *)
+Lemma write_vals_erase nbits stride ln ln' : forall vals m a,
+  same_outcome (write_vals m nbits stride a vals ln) (write_vals m nbits stride a vals ln').
+Proof.
+  induction vals as [|v t IH]; intros m a; cbn [write_vals]; [apply rel_res_refl|].
+  destruct (py_int0 v) as [z|]; [|reflexivity].
+  destruct (dwrite m nbits a (U nbits z)) as [m1|e]; [apply IH | reflexivity].
+Qed.
+
+Lemma write_data_erase : forall D1 D2 m a vars, map snd D1 = map snd D2 ->
+  same_outcome (write_data D1 m a vars) (write_data D2 m a vars).
+Proof.
+  induction D1 as [|[ln l] t IH]; intros [|[ln' l'] t'] m a vars H; try discriminate H.
+  - apply rel_res_refl.
+  - cbn [map snd] in H. injection H as <- Ht. cbn [write_data].
+    destruct l as [d|name ty vals|name s|name v|name|inl b]; try reflexivity.
+    + destruct (var_lookup vars name); [reflexivity|].
+      assert (G : forall nbits stride, same_outcome
+        match write_vals m nbits stride (align4 a) vals ln with
+        | PErr e => PErr e
+        | POk (m', a') => write_data t m' a' (vars ++ [(name, (align4 a, stride))])
+        end
+        match write_vals m nbits stride (align4 a) vals ln' with
+        | PErr e => PErr e
+        | POk (m', a') => write_data t' m' a' (vars ++ [(name, (align4 a, stride))])
+        end).
+      2: { destruct (ty =? 0); [|destruct (ty =? 1)]; apply G. }
+      intros nbits stride. pose proof (write_vals_erase nbits stride ln ln' vals m (align4 a)) as R.
+      unfold same_outcome in R.
+      destruct (write_vals m nbits stride (align4 a) vals ln) as [[m1 a1]|e1],
+               (write_vals m nbits stride (align4 a) vals ln') as [[m1' a1']|e1']; cbn in R; try contradiction.
+      * injection R as <- <-. apply IH; exact Ht.
+      * exact R.
+    + destruct (var_lookup vars name); [reflexivity|].
+      destruct (write_chars m (align4 a) (strip_quotes s)) as [[m1 a1]|e]; [|reflexivity].
+      destruct (dwrite m1 8 a1 0) as [m2|e]; [|reflexivity]. apply IH; exact Ht.
+    + destruct (var_lookup vars name); [reflexivity|].
+      destruct (py_int10 v) as [n|]; [|reflexivity]. apply IH; exact Ht.
+Qed.
+
+(** ** in-line labels and expansion under renumbering *)
+Lemma split_inline_renumber f : forall T,
+  split_inline (renumber f T) = (renumber f (fst (split_inline T)), renumber f (snd (split_inline T))).
+Proof.
+  induction T as [|[ln l] t IH]; [reflexivity|].
+  cbn [renumber map fst snd split_inline]. fold (renumber f t). rewrite IH.
+  destruct (split_inline t) as [es labs]. cbn [fst snd].
+  destruct l as [d|name ty vals|name s|name v|name|[inl|] b]; reflexivity.
+Qed.
+
+Lemma split_inline_lines : forall T,
+  incl (map fst (fst (split_inline T))) (map fst T) /\ incl (map fst (snd (split_inline T))) (map fst T).
+Proof.
+  induction T as [|[ln l] t [IH1 IH2]]; [split; apply incl_refl|].
+  cbn [split_inline]. destruct (split_inline t) as [es labs]. cbn [fst snd] in IH1, IH2.
+  assert (Ha : incl (map fst ((ln, ELabel 0) :: es)) (map fst ((ln, l) :: t))).
+  { cbn [map fst]. intros x [<- | Hx]; [left; reflexivity | right; apply IH1; exact Hx]. }
+  assert (Hb : incl (map fst labs) (map fst ((ln, l) :: t))).
+  { intros x Hx. right. apply IH2; exact Hx. }
+  assert (Hc : forall nm, incl (map fst ((ln, nm) :: labs)) (map fst ((ln, l) :: t))).
+  { intros nm. cbn [map fst]. intros x [<- | Hx]; [left; reflexivity | right; apply IH2; exact Hx]. }
+  destruct l as [d|name ty vals|name s|name v|name|[inl|] b]; cbn [fst snd]; split; try exact Ha; try exact Hb.
+  apply Hc.
+Qed.
+
+Lemma var_address_erase vars v ln ln' : same_outcome (var_address vars v ln) (var_address vars v ln').
+Proof.
+  unfold var_address. destruct (var_lookup vars (fst v)) as [[a size]|]; [|reflexivity].
+  destruct (snd v) as [d|]; [|reflexivity]. destruct (py_int10 d); reflexivity.
+Qed.
+
+Lemma expand_one_erase vars ln ln' b : same_outcome (expand_one vars ln b) (expand_one vars ln' b).
+Proof.
+  destruct b as [k|i|]; [apply rel_res_refl | | apply rel_res_refl].
+  unfold expand_one.
+  destruct (k_mn i =? MN_LI).
+  { destruct (k_rd i); [|reflexivity]. destruct (k_imm i) as [s|]; [|reflexivity].
+    destruct (py_int0 s) as [z|]; [|reflexivity]. destruct (hi_lo z). destruct (_ || _); reflexivity. }
+  destruct (is_load_mn (k_mn i) || (k_mn i =? MN_LA)).
+  { destruct (k_var i) as [v|]; [|reflexivity].
+    pose proof (var_address_erase vars v ln ln') as R. unfold same_outcome in R.
+    destruct (var_address vars v ln) as [x|e1], (var_address vars v ln') as [x'|e1']; cbn in R; try contradiction.
+    - subst x'. destruct (k_reg1 i); [|reflexivity]. destruct (hi_lo x). destruct (is_load_mn _); reflexivity.
+    - exact R. }
+  destruct (is_store_mn (k_mn i)).
+  { destruct (k_var i) as [v|]; [|reflexivity].
+    pose proof (var_address_erase vars v ln ln') as R. unfold same_outcome in R.
+    destruct (var_address vars v ln) as [x|e1], (var_address vars v ln') as [x'|e1']; cbn in R; try contradiction.
+    - subst x'. destruct (k_reg1 i); [|reflexivity]. destruct (k_reg2 i); [|reflexivity].
+      destruct (hi_lo x). reflexivity.
+    - exact R. }
+  destruct (k_mn i =? MN_MV); [|reflexivity].
+  destruct (k_rd i); [|reflexivity]. destruct (k_rs i); reflexivity.
+Qed.
+
+Lemma expand_all_renumber vars f : forall es,
+  rel_res (fun r1 r2 => r2 = renumber f r1) (expand_all vars es) (expand_all vars (renumber f es)).
+Proof.
+  induction es as [|[ln e] t IH]; [reflexivity|].
+  cbn [renumber map fst snd expand_all]. fold (renumber f t).
+  destruct e as [name|b].
+  - destruct (expand_all vars t) as [r|e1], (expand_all vars (renumber f t)) as [r'|e1']; cbn in IH |- *;
+      try contradiction; [subst r'; reflexivity | exact IH].
+  - pose proof (expand_one_erase vars ln (f ln) b) as R. unfold same_outcome in R.
+    destruct (expand_one vars ln b) as [bs|e0], (expand_one vars (f ln) b) as [bs'|e0']; cbn in R; try contradiction;
+      [subst bs' | exact R].
+    destruct (expand_all vars t) as [r|e1], (expand_all vars (renumber f t)) as [r'|e1']; cbn in IH |- *;
+      try contradiction; [subst r' | exact IH].
+    unfold renumber. rewrite map_app, map_map. reflexivity.
+Qed.
+
+Lemma expand_all_lines vars : forall es r, expand_all vars es = POk r -> incl (map fst r) (map fst es).
+Proof.
+  induction es as [|[ln e] t IH]; intros r H; cbn [expand_all] in H.
+  - injection H as <-. apply incl_refl.
+  - destruct e as [name|b].
+    + destruct (expand_all vars t) as [r0|]; [|discriminate]. injection H as <-.
+      cbn [map fst]. intros x [<- | Hx]; [left; reflexivity | right; apply (IH _ eq_refl); exact Hx].
+    + destruct (expand_one vars ln b) as [bs|]; [|discriminate].
+      destruct (expand_all vars t) as [r0|]; [|discriminate]. injection H as <-.
+      rewrite map_app, map_map. cbn [fst map]. intros x Hx. apply in_app_or in Hx. destruct Hx as [Hx | Hx].
+      * left. apply in_map_iff in Hx. destruct Hx as (y & <- & _). reflexivity.
+      * right. apply (IH _ eq_refl); exact Hx.
+Qed.
+
+(** ** labels *)
+Definition inj_on (f : Z -> Z) (ls : list Z) : Prop := forall x y, In x ls -> In y ls -> f x = f y -> x = y.
+
+Lemma mget_opt_renumber f ls : inj_on f ls -> forall inl ln, incl (map fst inl) ls -> In ln ls ->
+  mget_opt (renumber f inl) (f ln) = mget_opt inl ln.
+Proof.
+  intros Hf. induction inl as [|[k v] t IH]; intros ln Hi Hl; [reflexivity|].
+  cbn [renumber map fst snd mget_opt]. fold (renumber f t).
+  assert (Hk : In k ls) by (apply Hi; left; reflexivity).
+  assert (E : (f k =? f ln) = (k =? ln)).
+  { destruct (k =? ln) eqn:E1.
+    - apply Z.eqb_eq in E1. subst. apply Z.eqb_refl.
+    - apply Z.eqb_neq. intros E2. apply Z.eqb_neq in E1. apply E1. apply Hf; assumption. }
+  rewrite E. destruct (k =? ln); [reflexivity|]. apply IH; [|exact Hl].
+  intros x Hx. apply Hi. right. exact Hx.
+Qed.
+
+Lemma add_label_erase_rv labels name v ln ln' : same_outcome (add_label labels name v ln) (add_label labels name v ln').
+Proof. unfold add_label. destruct (mget_opt labels name); reflexivity. Qed.
+
+Lemma rv_labels_renumber f ls : inj_on f ls -> forall text inl addr labels last,
+  incl (map fst text) ls -> incl (map fst inl) ls -> (forall l, last = Some l -> In l ls) ->
+  same_outcome (rv_labels text inl addr labels last)
+               (rv_labels (renumber f text) (renumber f inl) addr labels (option_map f last)).
+Proof.
+  intros Hf. induction text as [|[ln e] t IH]; intros inl addr labels last Ht Hi Hl; [apply rel_res_refl|].
+  cbn [renumber map fst snd rv_labels]. fold (renumber f t).
+  assert (Hln : In ln ls) by (apply Ht; left; reflexivity).
+  assert (Ht' : incl (map fst t) ls) by (intros x Hx; apply Ht; right; exact Hx).
+  assert (Hnext : forall l, Some ln = Some l -> In l ls) by (intros l E; injection E as <-; exact Hln).
+  destruct e as [name|b].
+  - pose proof (add_label_erase_rv labels name addr ln (f ln)) as R. unfold same_outcome in R.
+    destruct (add_label labels name addr ln) as [lb|e1], (add_label labels name addr (f ln)) as [lb'|e1'];
+      cbn in R; try contradiction; [subst lb' | exact R].
+    apply (IH inl addr lb (Some ln)); assumption.
+  - rewrite (mget_opt_renumber f ls Hf inl ln Hi Hln).
+    assert (Efirst : match option_map f last with Some l => negb (l =? f ln) | None => true end =
+                     match last with Some l => negb (l =? ln) | None => true end).
+    { destruct last as [l|]; [|reflexivity]. cbn [option_map]. f_equal.
+      assert (Hlin : In l ls) by (apply Hl; reflexivity).
+      destruct (l =? ln) eqn:E1.
+      - apply Z.eqb_eq in E1. subst. apply Z.eqb_refl.
+      - apply Z.eqb_neq. intros E2. apply Z.eqb_neq in E1. apply E1. apply Hf; assumption. }
+    rewrite Efirst.
+    set (first := match last with Some l => negb (l =? ln) | None => true end).
+    assert (R : same_outcome
+      (match mget_opt inl ln with
+       | Some name => if first then add_label labels name addr ln else POk labels
+       | None => POk labels end)
+      (match mget_opt inl ln with
+       | Some name => if first then add_label labels name addr (f ln) else POk labels
+       | None => POk labels end)).
+    { destruct (mget_opt inl ln) as [name|]; [|reflexivity]. destruct first; [apply add_label_erase_rv | reflexivity]. }
+    unfold same_outcome in R.
+    destruct (match mget_opt inl ln with
+       | Some name => if first then add_label labels name addr ln else POk labels
+       | None => POk labels end) as [lb|e1],
+      (match mget_opt inl ln with
+       | Some name => if first then add_label labels name addr (f ln) else POk labels
+       | None => POk labels end) as [lb'|e1']; cbn in R; try contradiction; [subst lb' | exact R].
+    apply (IH inl _ lb (Some ln)); assumption.
+Qed.
+
+(** ** instantiation *)
+Lemma need_reg_erase r ln ln' : same_outcome (need_reg r ln) (need_reg r ln').
+Proof. unfold need_reg. destruct r as [t|]; [destruct (reg_num t)|]; reflexivity. Qed.
+
+Lemma need_int_erase s ln ln' : same_outcome (need_int s ln) (need_int s ln').
+Proof. unfold need_int. destruct s as [t|]; [destruct (py_int0 t)|]; reflexivity. Qed.
+
+Lemma label_or_imm_erase i labels addr ln ln' :
+  same_outcome (label_or_imm i labels addr ln) (label_or_imm i labels addr ln').
+Proof.
+  unfold label_or_imm, same_outcome. destruct (k_imm i) as [s|].
+  - apply (rel_pbind eq); [apply need_int_erase|]. intros x y <-. destruct (_ =? 0); reflexivity.
+  - apply (rel_pbind eq).
+    + destruct (k_offset i); [apply need_int_erase | reflexivity].
+    + intros x y <-. destruct (k_label i) as [l|]; [destruct (mget_opt labels l)|]; reflexivity.
+Qed.
+
+Ltac erase_binds :=
+  repeat (apply (rel_pbind eq);
+          [first [apply need_reg_erase | apply need_int_erase | apply label_or_imm_erase] | intros ? ? <-]);
+  try reflexivity.
+
+Lemma instantiate_one_erase i labels addr ln ln' :
+  same_outcome (instantiate_one i labels addr ln) (instantiate_one i labels addr ln').
+Proof.
+  unfold instantiate_one, same_outcome.
+  destruct (negb (in_instruction_map (k_mn i))); [reflexivity|].
+  destruct (k_mn i <=? 17); [erase_binds|].
+  destruct ((k_mn i <=? 33) || (k_mn i =? 46)); [erase_binds|].
+  destruct (k_mn i <=? 36); [erase_binds|].
+  destruct (k_mn i <=? 42); [erase_binds|].
+  destruct (k_mn i <=? 44); [erase_binds|].
+  destruct (k_mn i =? 45); [erase_binds|].
+  destruct (k_mn i =? 47); [reflexivity|].
+  destruct (k_mn i <=? 50); erase_binds.
+Qed.
+
+Lemma instantiate_renumber f labels : forall text addr,
+  same_outcome (instantiate text labels addr) (instantiate (renumber f text) labels addr).
+Proof.
+  induction text as [|[ln e] t IH]; intros addr; [apply rel_res_refl|].
+  cbn [renumber map fst snd instantiate]. fold (renumber f t). unfold same_outcome.
+  destruct e as [name|[k|i|]].
+  - apply IH.
+  - destruct (k =? 0); [|destruct (k =? 1)].
+    + apply (rel_pbind eq); [apply IH | intros x y <-; reflexivity].
+    + apply (rel_pbind eq); [apply IH | intros x y <-; reflexivity].
+    + apply IH.
+  - apply (rel_pbind eq); [apply instantiate_one_erase|]. intros x y <-.
+    apply (rel_pbind eq); [apply IH | intros r r' <-; reflexivity].
+  - reflexivity.
+Qed.
+
+(** ** the assembler after segmentation *)
+Definition assemble_rest (data text0 : list (Z * rline)) (m : memsys) : pres (memsys * image) :=
+  let '(text1, inlabs) := split_inline text0 in
+  pbind (write_data data m 16384 []) (fun mv =>
+  let '(m', vars) := mv in
+  pbind (expand_all vars text1) (fun text2 =>
+  pbind (rv_labels text2 inlabs 0 [] None) (fun labels =>
+  pbind (instantiate text2 labels 0) (fun ins =>
+  if 4 * Z.of_nat (List.length ins) >? imem_limit then PErr (PMemAddr imem_limit)
+  else POk (m', {| i_instrs := ins; i_labels := labels; i_vars := vars |}))))).
+
+Lemma assemble_unfold toks m :
+  assemble toks m = pbind (segment rdir_of toks) (fun dt => assemble_rest (fst dt) (snd dt) m).
+Proof.
+  unfold assemble, assemble_rest. destruct (segment rdir_of toks) as [[data text0]|e]; reflexivity.
+Qed.
+
+Lemma assemble_rest_renumber D1 D2 T1 f m :
+  map snd D1 = map snd D2 -> inj_on f (map fst T1) ->
+  same_outcome (assemble_rest D1 T1 m) (assemble_rest D2 (renumber f T1) m).
+Proof.
+  intros HD Hf. unfold assemble_rest. rewrite split_inline_renumber.
+  destruct (split_inline_lines T1) as [Hl1 Hl2].
+  destruct (split_inline T1) as [text1 inlabs]. cbn [fst snd] in *.
+  unfold same_outcome. apply (rel_pbind eq); [apply write_data_erase; exact HD|].
+  intros [m' vars] ? <-.
+  pose proof (expand_all_renumber vars f text1) as R.
+  pose proof (expand_all_lines vars text1) as Hlines.
+  destruct (expand_all vars text1) as [text2|e1], (expand_all vars (renumber f text1)) as [text2'|e1'];
+    cbn in R |- *; try contradiction; [subst text2' | exact R].
+  specialize (Hlines _ eq_refl).
+  apply (rel_pbind eq).
+  - apply (rv_labels_renumber f (map fst T1) Hf text2 inlabs 0 [] None).
+    + intros x Hx. apply Hl1, Hlines, Hx.
+    + exact Hl2.
+    + intros l E; discriminate E.
+  - intros labels ? <-. apply (rel_pbind eq); [apply instantiate_renumber|].
+    intros ins ? <-. apply rel_res_refl.
+Qed.
+
+Lemma plain_transfer D1 D2 : map snd D1 = map snd D2 -> Forall plain_rline D1 -> Forall plain_rline D2.
+Proof.
+  revert D2. induction D1 as [|[ln l] t IH]; intros [|[ln' l'] t'] H HF; try discriminate H; [constructor|].
+  cbn [map snd] in H. injection H as <- Ht. inversion HF as [|? ? Hx Hr]; subst.
+  constructor; [exact Hx | apply IH; assumption].
+Qed.
+
+Lemma plain_renumber f T : Forall plain_rline T -> Forall plain_rline (renumber f T).
+Proof.
+  intros H. induction H as [|[ln l] t Hx Ht IH]; [constructor|].
+  cbn [renumber map]. constructor; [exact Hx | exact IH].
+Qed.
+
+Lemma layout_segment_order_lem : forall a b c d D1 T1 D2 f m,
+  Forall plain_rline D1 -> Forall plain_rline T1 ->
+  map snd D1 = map snd D2 ->
+  (forall x y, In x (map fst T1) -> In y (map fst T1) -> f x = f y -> x = y) ->
+  ~ In b (map fst D1) -> ~ In d (map fst (renumber f T1)) ->
+  let L1 := (a, RDirective 1) :: D1 ++ (b, RDirective 0) :: T1 in
+  let L2 := (c, RDirective 0) :: renumber f T1 ++ (d, RDirective 1) :: D2 in
+  same_outcome (assemble L1 m) (assemble L2 m).
+Proof.
+  intros a b c d D1 T1 D2 f m HD HT Hsnd Hf Hb Hd L1 L2. unfold L1, L2.
+  rewrite !assemble_unfold.
+  rewrite segment_rv_data_text by assumption.
+  rewrite segment_rv_text_data by (try assumption; [eapply plain_transfer; eassumption | apply plain_renumber; assumption]).
+  cbn [pbind fst snd]. apply assemble_rest_renumber; assumption.
+Qed.
